@@ -307,7 +307,10 @@ def check(case):
                 ro = [f[0][1] for f in (fs_sig, fs_yb, fs_y)]
                 sc_a, se_a = em.compute_sensitivities(ro[0], ro[1], a_S, ro[2])
                 case.close(sc_a, sc0, rtol=1e-12, what='score of compute_sensitivities for the arrays given as %s' % label)
-                case.close(np.asarray(se_a, dtype=float), np.asarray(se0, dtype=float), rtol=1e-12,
+                # (another memory layout means another summation order inside the matrix products: entries that are
+                # cancelling sums of terms ~|se|_max differ by rounding of that scale)
+                case.close(np.asarray(se_a, dtype=float), np.asarray(se0, dtype=float), rtol=1e-10,
+                           atol=1e-13 * max(1.0, float(np.max(np.abs(np.asarray(se0, dtype=float)))) if np.size(se0) else 1.0),
                            what='sensitivities for the model sensitivities given as %s' % label)
 
     # whole-number parameters, outputs and observations typed as integers (Python ints / int arrays) are the same
@@ -361,6 +364,9 @@ def check(case):
         with case.clause('normalisation'):
             if kind == 'lognorm' and sig[0] > 5:
                 # exp(-sigma^2/2 +- 14 sigma) leaves the double range: not decidable by quadrature
+                raise Inconclusive()
+            if s.get('offset'):
+                # a density of width ~1 around 3e8: the quadrature itself is only good to ~1e-7 there
                 raise Inconclusive()
             j = s['jq']
             full = np.array(sig, dtype=float)
